@@ -4,6 +4,8 @@ package h
 
 import (
 	"fmt"
+	"os"
+	"path/filepath"
 	"regexp"
 	"strings"
 	"time"
@@ -32,9 +34,9 @@ func (s *c15Spec) String() string {
 var c15Regexps = []string{`[a-c]{1,3}`, `\d+x?`, `(ab|cd){0,2}`, `[[:alpha:]]\w`, regexCatalogue[5], regexCatalogue[6]}
 
 func genC15Spec(t *Tape, depth int) *c15Spec {
-	w := []int{4, 3, 3, 3, 4, 4, 3, 3, 2, 2, 3, 2, 2, 2, 2, 2, 2, 2}
+	w := []int{4, 3, 3, 3, 4, 4, 3, 3, 2, 2, 3, 2, 2, 2, 2, 2, 2, 2, 3}
 	if depth >= 3 {
-		w = []int{4, 0, 0, 0, 0, 0, 3, 3, 2, 0, 0, 2, 2, 0, 2, 2, 0, 2}
+		w = []int{4, 0, 0, 0, 0, 0, 3, 3, 2, 0, 0, 2, 2, 0, 2, 2, 0, 2, 0}
 	}
 	switch t.Weighted("c15.kind", w...) {
 	case 0:
@@ -71,6 +73,9 @@ func genC15Spec(t *Tape, depth int) *c15Spec {
 		return &c15Spec{K: []string{"stringof", "stringn", "bytesmatching"}[t.Pick("c15.strkind", 3)], A: t.Int("c15.a", 0, 8)}
 	case 16:
 		return &c15Spec{K: "matching2"}
+	case 18:
+		// a chain of several .Filter calls on one base (from which the checks may derive further filters)
+		return &c15Spec{K: "filterchain", A: t.Int("c15.chain", 2, 5), Sub: &c15Spec{K: "intrange", A: t.Int("c15.a", 20, 60)}}
 	default:
 		return &c15Spec{K: "make"}
 	}
@@ -90,6 +95,13 @@ func (s *c15Spec) build() *rapid.Generator[any] {
 		return rapid.IntRange(0, s.A).AsAny()
 	case "filter":
 		return s.Sub.build().Filter(func(v any) bool { return len(plain(v))%3 != 0 })
+	case "filterchain":
+		g := s.Sub.build()
+		for i := 0; i < s.A; i++ {
+			m := i + 7
+			g = g.Filter(func(v any) bool { return v.(int)%m != 1 })
+		}
+		return g
 	case "map":
 		return rapid.Map(s.Sub.build(), func(v any) any { return "m(" + plain(v) + ")" })
 	case "oneof":
@@ -137,7 +149,7 @@ func (s *c15Spec) build() *rapid.Generator[any] {
 	case "stringn":
 		return rapid.StringN(-1, -1, s.A).AsAny()
 	case "bytesmatching":
-		return rapid.SliceOfBytesMatching(`[a-f]{0,4}`).AsAny()
+		return rapid.SliceOfBytesMatching([]string{`[a-f]{0,4}`, `\b[ab ]{1,4}\b`, `^a?\Bb*$`}[s.A%3]).AsAny()
 	case "matching2":
 		return rapid.OneOf(rapid.StringMatching(regexCatalogue[5]), rapid.StringMatching(regexCatalogue[6])).AsAny()
 	case "make":
@@ -161,7 +173,7 @@ type c15Use struct {
 	Seed int
 }
 
-var c15UseNames = []string{"Check", "Example", "String", "SubGenExample", "FailingCheck"}
+var c15UseNames = []string{"Check", "Example", "String", "SubGenExample", "FailingCheck", "DerivedFilterCheck"}
 
 // perform one use of g and return a log of everything it observed.
 func (u c15Use) perform(g *rapid.Generator[any], id int, scheduled bool) (log string, escaped any) {
@@ -177,8 +189,13 @@ func (u c15Use) perform(g *rapid.Generator[any], id int, scheduled bool) (log st
 			log = b.String() + fmt.Sprintf("!panic:%v", r)
 		}
 	}()
+	if u.Kind == 5 {
+		// every check derives its own filter from the shared generator (parity of the printed length, by check id)
+		par := id % 2
+		g = g.Filter(func(v any) bool { return len(plain(v))%2 == par })
+	}
 	switch u.Kind {
-	case 0, 4:
+	case 0, 4, 5:
 		tb := &e2TB{name: fmt.Sprintf("TestShare%d", id)}
 		escaped = runGuarded(func() {
 			rapid.Check(tb, func(t *rapid.T) {
@@ -220,12 +237,28 @@ func scenarioC15(rc *RunCtx) {
 	nG := t.Int("c15.ng", 2, maxG)
 	var uses []c15Use
 	for i := 0; i < nG; i++ {
-		uses = append(uses, c15Use{Kind: t.Weighted("c15.use", 4, 3, 2, 2, 2), Seed: t.Int("c15.seed", 0, 1<<20)})
+		uses = append(uses, c15Use{Kind: t.Weighted("c15.use", 4, 3, 2, 2, 2, 3), Seed: t.Int("c15.seed", 0, 1<<20)})
 	}
 	pol := genPolicy(t)
 	fl := Flags{Checks: t.Int("c15.checks", 1, 3), Steps: 3, Seed: 1 + t.Draw("c15.rseed", 1<<30), ShrinkTime: time.Hour, NoFailFile: true}
 	fl.Apply()
 
+	if t.Chance("c15.failfiles_present", 25) {
+		// every check finds (unusable) fail files of its own test: the checks load and ignore them concurrently
+		dir := rc.FreshDir()
+		oldwd, _ := os.Getwd()
+		_ = os.Chdir(dir)
+		defer os.Chdir(oldwd)
+		for i := 0; i < nG; i++ {
+			d := filepath.Join("testdata", "rapid", fmt.Sprintf("TestShare%d", i))
+			_ = os.MkdirAll(d, 0o755)
+			for k := 0; k < 3; k++ {
+				body := []string{"", "garbage\x00\xff", "v9.9.9#1\n0x1\n0x2\n" + strings.Repeat("# long comment line\n", 200*(k+1))}[(i+k)%3]
+				_ = os.WriteFile(filepath.Join(d, fmt.Sprintf("TestShare%d-%d.fail", i, k)), []byte(body), 0o644)
+			}
+		}
+		rc.Inc("probe.checks_with_fail_files_present")
+	}
 	shared := spec.build()
 	logs := make([]string, nG)
 	escs := make([]any, nG)
